@@ -5,3 +5,4 @@ pub mod util;
 pub mod paths;
 pub mod texts;
 pub mod lua_ast;
+pub mod configs;
